@@ -39,7 +39,7 @@ def yields_of(st):
 def s1_chunk_bounds(ctx):
     fi = ctx.repo.func(A, 'chunk_bounds')
     n, cs, ov = (T('param', p) for p in fi.params[:3])
-    I = SymInterp(ctx.repo, unroll=2, pos=[cs], nonneg=[ov, n])
+    I = SymInterp(ctx.repo, unroll=ctx.bound(2, 3), pos=[cs, T('Sub', cs, ov)], nonneg=[ov, n])
     outs = I.run(fi)
     ctx.analysed['paths'] += len(outs)
     nf = I.nf
@@ -85,6 +85,12 @@ def s1_chunk_bounds(ctx):
                 probs.setdefault('chunk %d has length %s, which exceeds chunk_size for some overlap' % (j, e - s), 1)
             elif sg is None and not last_form:
                 und.setdefault('length of chunk %d (%s) not comparable with chunk_size' % (j, e - s), 1)
+            # the chunk starts inside the data (a negative start would wrap around when the data is sliced)
+            sg0 = I.sign(s)
+            if sg0 == '-' or (sg0 is None and I.interpreted(s)):
+                probs.setdefault('chunk %d starts at %s, which is negative for some inputs (data shorter than the overlap): slicing the data with it wraps around' % (j, s), 1)
+            elif sg0 is None:
+                und.setdefault('sign of the start %s of chunk %d unknown' % (s, j), 1)
             # kept part inside the chunk
             for what, dd in (('keep_start - s_start', k - s), ('s_end - keep_end', e - ke)):
                 sg = I.sign(dd)
@@ -125,7 +131,7 @@ def s2_excerpts(ctx):
     repo = ctx.repo
     fi = repo.func(A, 'excerpts')
     n, k, size = (T('param', p) for p in fi.params[:3])
-    I = ExInterp(repo, unroll=2, inline_depth=2, pos=[size], nonneg=[n, T('i')])
+    I = ExInterp(repo, unroll=ctx.bound(2, 3), inline_depth=2, pos=[size], nonneg=[n, T('i')])
     I.inline.add(repo.func(A, '_excerpt_step').node)
     outs = I.run(fi)
     ctx.analysed['paths'] += len(outs)
